@@ -65,6 +65,8 @@ class C20(Prop):
             yield {"k": "list", "descs": descs, "how": rng.choice(("args", "list", "plist"))}
             ops = [[rng.randrange(4) for _ in range(n)] + [rng.randrange(4)] for _ in range(L)]
             yield {"k": "select", "kind": "int", "ops": ops, "idx": rng.randrange(L) + 1}
+            yield {"k": "select", "kind": "int", "ops": ops, "idx": rng.randrange(L) + 1, "itype": rng.choice(("int64", "int32", "uint8", "intp")), "pkg": "py"}
+            yield {"k": "select", "kind": "int", "ops": ops, "idx": rng.randrange(L) + 1, "neg": True}
             a, b, st = rng.randrange(-L, L + 1), rng.randrange(-L, L + 2), rng.choice((None, 1, 2, -1))
             yield {"k": "select", "kind": "slice", "ops": ops, "slice": [a, b, st]}
             yield {"k": "select", "kind": "mask", "ops": ops, "mask": [rng.random() < 0.5 for _ in range(L)]}
@@ -132,7 +134,13 @@ class C20(Prop):
                 L = be.plist(ops)
                 if scn["kind"] == "int":
                     rec["idx"] = scn["idx"]
-                    rec["ret"] = be.p_pauli(L[scn["idx"] - 1])
+                    i0 = scn["idx"] - 1
+                    if scn.get("neg"):
+                        i0 = i0 - len(ops)          # the same element addressed from the end
+                    if scn.get("itype"):
+                        i0 = getattr(numpy, scn["itype"])(i0)
+                        rec["itype"] = scn["itype"]
+                    rec["ret"] = be.p_pauli(L[i0])
                 elif scn["kind"] == "slice":
                     a, b, st = scn["slice"]
                     sl = slice(a, b, st)
